@@ -163,7 +163,7 @@ def handleExec (ds : DS) (j : Json) : IO DS := do
     if before != after then
       ds ← finding ds "monitor" "C01" "value_conserved" id s!"the accounts held {before} before and {after} after ({implOutcome}) code={codeHex} input={J.strOf j "input"} value={J.intOf j "value"}"
   let r := execTop menv gas preW
-  for (k, p, n, d) in Shentu.MemD.check j (fun _ => (execTop { menv with q := Quirks.spec, fuelCap := gas + 1000 } (2 ^ 60) preW).devs) do ds ← (if k == "stat" then pure (stat ds n) else finding ds k p n id d)   -- C17 memory_is_paid_for (Drivers/MemD.lean)
+  for (k, p, n, d) in Shentu.MemD.check j (fun _ => let sr := execTop { menv with q := Quirks.spec, fuelCap := gas + 1000 } (2 ^ 60) preW; (sr.devs, sr.status)) do ds ← (if k == "stat" then pure (stat ds n) else finding ds k p n id d)   -- C17 memory_is_paid_for (Drivers/MemD.lean)
   let mOutcome := outcomeStr r
   let mStorage := normStorage (((r.world.get menv.callee).map (·.storage)).getD [])
   for op in [0:256] do
